@@ -93,8 +93,8 @@ Proof.
   intros HU. cbn zeta. rewrite step_PHs. cbn [fst].
   assert (HU0 : ChallUniq (hs (tick c h now d))).
   { apply (tick_chall c h now d (fun l => NoDup (chall_keys l))); [apply chall_closed_NoDup | exact HU]. }
-  pose proof (ham_consumes_challenge c (tick c h now d) (src, from) n aad sg eph eph_ok rec ct now HU0) as H.
-  cbn zeta in H. cbn [fst] in H.
+  pose proof (ham_consumes_challenge (with_clock c now) (tick c h now d) (src, from) n aad sg eph eph_ok rec ct now HU0) as H.
+  cbn zeta in H. cbn [fst] in H. rewrite establish_with_clock in H.
   destruct (chall_get (src, from) (challenges (hs (tick c h now d)))) as [ch |]; [| exact I].
   destruct (establish c src ch sg eph eph_ok rec); try exact H. destruct H as [H1 [_ [H2 _]]]. auto.
 Qed.
@@ -133,7 +133,7 @@ Qed.
 
 Theorem step_ChallUniq c h e now d : ChallUniq h -> ChallUniq (fst (step c h e now d)).
 Proof.
-  intros HU. rewrite step_eq. cbn [fst]. apply dispatch_ChallUniq.
+  intros HU. rewrite step_eq. cbn [fst]. apply (dispatch_ChallUniq (with_clock c now)).
   apply (tick_chall c h now d (fun l => NoDup (chall_keys l))); [apply chall_closed_NoDup | exact HU].
 Qed.
 
@@ -203,7 +203,8 @@ Proof.
   intros HU H1 H2. rewrite step_PHs in H1. injection H1 as Eh1 Eo1.
   assert (HU0 : ChallUniq (hs (tick c h now d))).
   { apply (tick_chall c h now d (fun l => NoDup (chall_keys l))); [apply chall_closed_NoDup | exact HU]. }
-  pose proof (ham_makes_dead c (tick c h now d) (src, from) n aad sg eph eph_ok rec ct now HU0) as Hd.
+  pose proof (ham_makes_dead (with_clock c now) (tick c h now d) (src, from) n aad sg eph eph_ok rec ct now HU0) as Hd.
+  change (dead_handshake (with_clock c now)) with (dead_handshake c) in Hd.
   rewrite Eh1 in Hd.
   assert (HU1 : ChallUniq h1).
   { pose proof (step_ChallUniq c h (EvInbound from (PHs src n aad sg eph eph_ok rec ct)) now d HU) as Hs.
@@ -211,7 +212,7 @@ Proof.
   clear Eh1 Eo1.
   pose proof (tick_keeps_dead c h1 now2 d2 _ _ _ _ _ HU1 Hd) as Hd2.
   rewrite step_PHs in H2. injection H2 as Eh2 Eo2.
-  destruct (ham_dead c (tick c h1 now2 d2) (src, from) n aad sg eph eph_ok rec ct now2 Hd2) as [Es Eo].
+  destruct (ham_dead (with_clock c now2) (tick c h1 now2 d2) (src, from) n aad sg eph eph_ok rec ct now2 Hd2) as [Es Eo].
   cbn zeta in Es, Eo. rewrite Eh2 in Es. rewrite Eo2 in Eo.
   split; [exact Es | split; [exact Eo | split]].
   - eapply SessD_trans; [apply tick_SessD | apply SessD_same; exact Es].
@@ -286,14 +287,17 @@ Proof.
   cbn zeta. split.
   - intros H. rewrite step_PWho. rewrite hc_needs_inflight; [reflexivity | exact H].
   - intros na0 H Hs. rewrite step_PWho. cbn [fst snd].
-    destruct (hc_other_source c (tick c h now d) from n seq cd now na0 H Hs) as [H1 [_ [H2 [H3 [H4 [H5 H6]]]]]].
-    auto 10.
+    destruct (hc_other_source (with_clock c now) (tick c h now d) from n seq cd now na0 H Hs) as [H1 [_ [H2 [H3 [H4 [H5 H6]]]]]].
+    repeat (split; [assumption |]). exact H6.
 Qed.
 
-(* a request is answered with at most one handshake: a second WHOAREYOU for it fails the request *)
-Lemma hc_second_whoareyou c s src n seq cd now h1 na r :
+(* a request is answered with at most one handshake: a second WHOAREYOU for it fails the request; so
+   does a WHOAREYOU for a request to a contact whose key is not a secp256k1 key (no session keys can be
+   derived: no handshake packet is built) *)
+Lemma hc_no_handshake c s src n seq cd now h1 na r :
   nmap_get n (nmap (hs s)) <> None ->
-  ar_remove_by_nonce (hs s) n = (h1, Some (na, r)) -> snd na = src -> rc_hs_sent r = true ->
+  ar_remove_by_nonce (hs s) n = (h1, Some (na, r)) -> snd na = src ->
+  rc_hs_sent r || c_ed (rc_contact r) = true ->
   let s' := handle_challenge c s src n seq cd now in
   s' = fail_request c (if fix_d6 c then remove_expected (with_hs s h1) src else with_hs s h1) r
          ERR_INVALID_REMOTE_PACKET true /\
@@ -319,6 +323,20 @@ Proof.
   rewrite El. apply in_or_app. left. cbn [emit outs]. apply in_or_app. right. left. reflexivity.
 Qed.
 
+Lemma hc_second_whoareyou c s src n seq cd now h1 na r :
+  nmap_get n (nmap (hs s)) <> None ->
+  ar_remove_by_nonce (hs s) n = (h1, Some (na, r)) -> snd na = src -> rc_hs_sent r = true ->
+  let s' := handle_challenge c s src n seq cd now in
+  s' = fail_request c (if fix_d6 c then remove_expected (with_hs s h1) src else with_hs s h1) r
+         ERR_INVALID_REMOTE_PACKET true /\
+  OutsExt failed_out s s' /\
+  (rc_ext r = true -> In (OEvent (HRequestFailed (rc_rid r) ERR_INVALID_REMOTE_PACKET)) (outs s')) /\
+  QH (hs s) (hs s').
+Proof.
+  intros Hn Hr Hsrc Hsent. apply (hc_no_handshake c s src n seq cd now h1 na r); try assumption.
+  rewrite Hsent. reflexivity.
+Qed.
+
 Theorem single_handshake_per_request c h from n idn seq cd now d h1 na r :
   let s0 := tick c h now d in
   nmap_get n (nmap (hs s0)) <> None ->
@@ -328,13 +346,34 @@ Theorem single_handshake_per_request c h from n idn seq cd now d h1 na r :
   (forall o, In o (snd res) -> In o (outs s0) \/ failed_out o) /\
   (rc_ext r = true -> In (OEvent (HRequestFailed (rc_rid r) ERR_INVALID_REMOTE_PACKET)) (snd res)) /\
   (* the request taken out of the active requests is not put back *)
-  fst res = hs (fail_request c (if fix_d6 c then remove_expected (with_hs s0 h1) from else with_hs s0 h1) r
+  fst res = hs (fail_request (with_clock c now)
+                  (if fix_d6 c then remove_expected (with_hs s0 h1) from else with_hs s0 h1) r
                   ERR_INVALID_REMOTE_PACKET true) /\
   SessD h (fst res).
 Proof.
   cbn zeta. intros Hn Hr Hs Hsent. rewrite step_PWho. cbn [fst snd].
-  destruct (hc_second_whoareyou c (tick c h now d) from n seq cd now h1 na r Hn Hr Hs Hsent) as [E [Ho [Hf [_ [HD _]]]]].
+  destruct (hc_second_whoareyou (with_clock c now) (tick c h now d) from n seq cd now h1 na r Hn Hr Hs Hsent) as [E [Ho [Hf [_ [HD _]]]]].
   split; [| split; [exact Hf | split; [rewrite E; reflexivity |]]].
+  - intros o Hin. exact (OutsExt_In _ _ _ _ Ho Hin).
+  - eapply SessD_trans; [apply tick_SessD | exact HD].
+Qed.
+
+(* the same for a request to a contact whose key is not a secp256k1 key (e.g. Ed25519): its WHOAREYOU is
+   never answered with a handshake packet *)
+Theorem no_handshake_for_unsupported_key c h from n idn seq cd now d h1 na r :
+  let s0 := tick c h now d in
+  nmap_get n (nmap (hs s0)) <> None ->
+  ar_remove_by_nonce (hs s0) n = (h1, Some (na, r)) -> snd na = from -> c_ed (rc_contact r) = true ->
+  let res := step c h (EvInbound from (PWho n idn seq cd)) now d in
+  (forall o, In o (snd res) -> In o (outs s0) \/ failed_out o) /\
+  (rc_ext r = true -> In (OEvent (HRequestFailed (rc_rid r) ERR_INVALID_REMOTE_PACKET)) (snd res)) /\
+  SessD h (fst res).
+Proof.
+  cbn zeta. intros Hn Hr Hs Hed. rewrite step_PWho. cbn [fst snd].
+  assert (Hor : rc_hs_sent r || c_ed (rc_contact r) = true) by (rewrite Hed; apply orb_true_r).
+  destruct (hc_no_handshake (with_clock c now) (tick c h now d) from n seq cd now h1 na r Hn Hr Hs Hor)
+    as [E [Ho [Hf [_ [HD _]]]]].
+  split; [| split; [exact Hf |]].
   - intros o Hin. exact (OutsExt_In _ _ _ _ Ho Hin).
   - eapply SessD_trans; [apply tick_SessD | exact HD].
 Qed.
